@@ -354,6 +354,30 @@ func (m *Model) ruleDONE(r *Results) {
 						}
 					}
 				}
+				if !okCopy {
+					// ... or the callee, which receives the arguments by value, puts a freshly made channel
+					// into its own copy before handing it on
+					for _, b := range callee.Blocks {
+						for _, ins := range b.Instrs {
+							st, ok := ins.(*ssa.Store)
+							if !ok {
+								continue
+							}
+							fa, ok := st.Addr.(*ssa.FieldAddr)
+							if !ok || fieldOf(fa) == nil || fieldOf(fa).Name() != "DoneChan" {
+								continue
+							}
+							al, ok := fa.X.(*ssa.Alloc)
+							if !ok {
+								continue
+							}
+							// the alloc is the spilled parameter
+							if ps := singleStoreOrFirst(al); ps != nil && ps.Val == ssa.Value(p) && m.derivesFromMakeChan(st.Val, 0, map[ssa.Value]bool{}) {
+								okCopy = true
+							}
+						}
+					}
+				}
 				r.check(okCopy, rule, m.declName(f)+" / per-collection feed arguments", m.instrPos(c), "each per-collection feed is started with the arguments copy that carries its own done channel", "a per-collection feed is started with the caller's own arguments (and so with the caller's done channel): every per-collection feed closes it, and the second close panics in a library goroutine")
 			}
 		})
@@ -384,6 +408,25 @@ func (m *Model) derivesFromMakeChan(v ssa.Value, depth int, seen map[ssa.Value]b
 	v = stripConv(v)
 	switch x := v.(type) {
 	case *ssa.MakeChan:
+		return true
+	case *ssa.Parameter:
+		// a helper that is handed the channel: every caller passes a freshly made one
+		fn := x.Parent()
+		idx := -1
+		for i, q := range fn.Params {
+			if q == x {
+				idx = i
+			}
+		}
+		callers := m.staticCallersOf(fn)
+		if idx < 0 || len(callers) == 0 {
+			return false
+		}
+		for _, cl := range callers {
+			if idx >= len(cl.Common().Args) || !m.derivesFromMakeChan(cl.Common().Args[idx], depth+1, seen) {
+				return false
+			}
+		}
 		return true
 	case *ssa.Lookup: // doneChans[collection]
 		if ld, ok := x.X.(*ssa.UnOp); ok {
@@ -750,6 +793,49 @@ func (m *Model) ruleOPENMODE(r *Results) {
 		r.bad(rule, name+" / expiry re-armed on reopen", m.pos(fn.Pos()), "the open function never schedules the pending expirations of an existing bucket: documents whose TTL was set before the restart never expire")
 	} else {
 		c := versCutIn(rearmFn, rearmFr, false, true)
+		// ... or on the false edge of a flag that can be true only where the version was found 0
+		// (`isNew`): that edge is taken for every existing database
+		{
+			te := m.newTermEval()
+			for _, iff := range allIfs(rearmFn) {
+				if pol, exact := versPred(te.term(iff.Cond, iff, rearmFr)); pol == 1 && !exact {
+					c.cutEdge(iff.Block(), iff.Block().Succs[1])
+					continue
+				}
+				// a local flag that is assigned true only under such a test
+				cd := condOf(iff)
+				if cd.Op != token.ILLEGAL || cd.X == nil {
+					continue
+				}
+				ld, ok := stripConv(cd.X).(*ssa.UnOp)
+				if !ok || ld.Op != token.MUL {
+					continue
+				}
+				al, ok := ld.X.(*ssa.Alloc)
+				if !ok {
+					continue
+				}
+				onlyUnderZero, anyTrue := true, false
+				for _, st := range cellStores(al) {
+					if k, ok := st.Val.(*ssa.Const); ok && k.Value != nil && k.Value.Kind() == constant.Bool && !constant.BoolVal(k.Value) {
+						continue
+					}
+					anyTrue = true
+					under := false
+					for _, ct := range controllingConds(st.Parent(), st.Block()) {
+						if pol, _ := versPred(te.term(ct.If.Cond, ct.If, m.closureFrame(st.Parent()))); pol == 1 && ct.Branch {
+							under = true
+						}
+					}
+					if !under {
+						onlyUnderZero = false
+					}
+				}
+				if anyTrue && onlyUnderZero {
+					c.cutEdge(iff.Block(), cd.succWhen(false))
+				}
+			}
+		}
 		// the re-arm must sit directly on the "version != 0" edge (no further condition in between)
 		direct := false
 		for e := range c.edges {
@@ -976,6 +1062,18 @@ func (m *Model) ruleVIEW(r *Results) {
 		r.check(keep, rule, name+" / re-map filter", m.instrPos(sel.Call), "documents with a body or xattrs are re-mapped", "the re-map select's filter changed")
 		// delete precedes inserts
 		da, ia := anchor(del), anchor(ins)
+		// both inside one helper of the closure: order them there
+		for depth := 0; depth < 3 && da != nil && da == ia; depth++ {
+			call, ok := da.(ssa.CallInstruction)
+			if !ok {
+				break
+			}
+			h := call.Common().StaticCallee()
+			if h == nil || !m.inPkg(h) {
+				break
+			}
+			da, ia = m.anchorIn(h, del), m.anchorIn(h, ins)
+		}
 		r.check(da != nil && ia != nil && instrReachable(da, ia, nil) && !instrReachable(ia, da, nil), rule, name+" / delete before insert", m.instrPos(del.Call), "obsolete rows are deleted before new rows are inserted", "index rows are inserted before the obsolete ones are deleted")
 	}
 	// the view mark is set to the collection mark read through the same transaction
@@ -2112,4 +2210,18 @@ func (m *Model) anchorIn(K *ssa.Function, s *SQLSite) ssa.Instruction {
 		}
 	})
 	return out
+}
+
+// singleStoreOrFirst: the store that initialises a spilled parameter (the first store of the
+// whole value into the cell, in the entry block).
+func singleStoreOrFirst(al *ssa.Alloc) *ssa.Store {
+	if al.Referrers() == nil {
+		return nil
+	}
+	for _, ref := range *al.Referrers() {
+		if st, ok := ref.(*ssa.Store); ok && st.Addr == ssa.Value(al) && st.Block().Index == 0 {
+			return st
+		}
+	}
+	return nil
 }
